@@ -19,6 +19,7 @@ inductive Clause
   | argvLayout           -- every value in exactly one element, or `key ++ separator ++ value` when a separator is configured
   | cachedEqualsDirect   -- resolution from the `resolvedMacros` cache gives the command / argv of the direct resolution
   | fillNotRun           -- the pass that fills `resolvedMacros` starts no process
+  | noCrash              -- macro expansion always terminates with a value or an error: never a crash, abort or hang
   deriving Repr, DecidableEq
 
 def Clause.name : Clause → String
@@ -26,6 +27,7 @@ def Clause.name : Clause → String
   | .argvMatchesCommand => "argv_matches_command" | .stringCmdVerbatim => "string_cmd_verbatim"
   | .failedNotRun => "failed_not_run" | .timeoutUnknown => "timeout_unknown"
   | .argvLayout => "argv_layout" | .cachedEqualsDirect => "cached_equals_direct" | .fillNotRun => "fill_not_run"
+  | .noCrash => "no_crash"
 
 /-- Exit codes 0/1/2/3 map to OK/WARNING/CRITICAL/UNKNOWN and anything else to UNKNOWN. -/
 def specState (exit : Int) : Nat :=
@@ -267,8 +269,9 @@ def specStringCmd (template : Bytes) (valueOf : Bytes → Option Bytes) (argv : 
 def specFailed (ran : Bool) (obsState : Nat) (obsExit : Int) : Option Clause :=
   if !ran ∧ obsState = 3 ∧ obsExit = 3 then none else some .failedNotRun
 
-/-- A plugin exceeding its timeout is killed and reported as UNKNOWN (the wording of the marker the
-    implementation puts into the output is not part of the property). -/
+/-- A plugin exceeding its timeout is killed and reported as UNKNOWN — whatever the plugin does when it is
+    told to terminate (dies, catches the signal and exits 0/1/2/3 on its own, ignores it and has to be killed).
+    The wording of the marker the implementation puts into the output is not part of the property. -/
 def specTimeout (obsState : Nat) (gone : Bool) : Option Clause :=
   if obsState = 3 ∧ gone then none else some .timeoutUnknown
 
